@@ -433,7 +433,7 @@ func checkC06Stack(f *fixtures.Fixture, r *vstat.Run) outcome {
 
 // ---- input mutation ----
 
-var c06Junk = [][]byte{[]byte("\xff"), []byte("\x00"), []byte("\xc3"), []byte("é"), []byte("日本"), []byte("\""), []byte("'"), []byte("`"), []byte("\\"), []byte("\n"), []byte("\r\n"),
+var c06Junk = [][]byte{[]byte("\xff"), []byte("\x80"), []byte("\x00"), []byte("\xc3"), []byte("\xe2\x82"), []byte("\xbf\xbf x"), []byte("\xf0\x9f\x98"), []byte("é"), []byte("日本"), []byte("\""), []byte("'"), []byte("`"), []byte("\\"), []byte("\n"), []byte("\r\n"),
 	[]byte("("), []byte(")"), []byte("{"), []byte("}"), []byte("["), []byte("]"), []byte("/*"), []byte("*/"), []byte("//"), []byte("#"), []byte("="), []byte(";"), []byte(","), []byte("0x"), []byte("1e"), []byte("${"), []byte("<<"), []byte("@"), []byte("$"), []byte(" "),
 	[]byte(`\q`), []byte(`"\q"`), []byte(`"\x4"`), []byte(`'\u12'`), []byte(`"a\400b"`), []byte(`\`)}
 
@@ -462,7 +462,7 @@ func mutateBytes(t *rapid.T, sample []byte) ([]byte, string) {
 		}
 		if len(quotes) > 0 {
 			a := quotes[rapid.IntRange(0, len(quotes)-1).Draw(t, "quote")] + 1
-			ins := []byte(rapid.SampledFrom([]string{"x\né日 ", "\nzwölf é ", "a\r\nüü", "\n\n日本語", `\q`, `a\x4`, `\u12z`, `\400`}).Draw(t, "spanins"))
+			ins := []byte(rapid.SampledFrom([]string{"x\né日 ", "\nzwölf é ", "a\r\nüü", "\n\n日本語", "\x80\xbf", "é\xe2\x82 ", `\q`, `a\x4`, `\u12z`, `\400`}).Draw(t, "spanins"))
 			b = append(b[:a:a], append(ins, b[a:]...)...)
 			end := a + len(ins)
 			for end < len(b) && b[end] != '\n' {
